@@ -639,17 +639,20 @@ async def _drive(case: dict, tl: Timeline, handler: ShapeHandler) -> dict:
     res["sent"] = bytes(c.sent)
     res["server_alive"] = not task.done()
     # tear down (handlers parked on a yield are cancelled by the server's own shutdown path)
-    if case["sut"] == "highlevel":
-        await srv.shutdown()
-        await task
-        await srv.server_close()
-    else:
-        task.cancel()
-        try:
+    try:
+        if case["sut"] == "highlevel":
+            await srv.shutdown()
             await task
-        except asyncio.CancelledError:
-            pass
-        await server.aclose()
+            await srv.server_close()
+        else:
+            task.cancel()
+            try:
+                await task
+            except asyncio.CancelledError:
+                pass
+            await server.aclose()
+    except Exception as exc:  # judged after the log comparison
+        res["teardown_exc"] = exc
     res["final_log"] = list(handler.log)
     res["closed_after"] = c.closed
     res["spin_jumps"] = loop.spin_jumps  # type: ignore[attr-defined]
@@ -723,6 +726,13 @@ def run_case(case: dict) -> Outcome:
                 **info,
             )
 
+    if res.get("teardown_exc") is not None:
+        from ..core import exception_from_sut, format_exc
+
+        texc = res["teardown_exc"]
+        if not exception_from_sut(texc):
+            raise HarnessError(f"teardown failed in the harness: {texc!r}")
+        raise Violation("teardown-exception", f"stopping the server raised {texc!r}", traceback=format_exc(texc), **info)
     final_log = res["final_log"]
     if cut_at is None:
         if not res["server_alive"]:
@@ -821,8 +831,8 @@ CHECK = Check(
         "partially received, or a parse error / timeout is observed between two delivered requests; distinct = sha1 of the case"
     ),
     layers=[
-        Layer("lowlevel", _strategy("lowlevel"), run_case, {"quick": 1500, "thorough": 12000}),
-        Layer("highlevel", _strategy("highlevel"), run_case, {"quick": 1500, "thorough": 12000}),
+        Layer("lowlevel", _strategy("lowlevel"), run_case, {"quick": 1200, "thorough": 10000}),
+        Layer("highlevel", _strategy("highlevel"), run_case, {"quick": 1200, "thorough": 10000}),
     ],
     assumptions=[
         "malformed frames are those with a frame-exact error (bad encoding / bad JSON line / marked payload / bad trailer / bad record / "
